@@ -7,7 +7,7 @@ from gen import unicode_text
 from uriutil import render_uri
 
 ID = 'C10'
-MODULES = ['Httoop.Props.C10']
+MODULES = ['Httoop.Props.C10', 'Httoop.Props.C10Whole']
 THEOREMS = [
 	'Httoop.Uri.uri_cuts',
 	'Httoop.Uri.compose_assemble',
@@ -18,6 +18,11 @@ THEOREMS = [
 	'Httoop.Uri.path_roundtrip',
 	'Httoop.Uri.integer_natToDec',
 	'Httoop.Uri.quote_clean_of_clean',
+	'Httoop.Uri.authority_cuts',
+	'Httoop.Uri.parse_compose',
+	'Httoop.Uri.compose_parse_compose',
+	'Httoop.Uri.sets_good',
+	'Httoop.Uri.c10_whole_witness',
 ]
 TRUSTED = [
 	'socket.inet_pton/inet_ntop (IPv6 literals) and the idna codec (internationalised names, ACE labels) are not modelled: such hosts are skipped by the model (counted) and judged by the oracle on the real code',
@@ -171,5 +176,6 @@ def finding_still_fails(k):
 
 LEVEL_TEXT = ('Theorems for ALL component values in the guarded domain (any length): every octet that is a delimiter in its position is outside that position\'s safe set (regenerated tables), the output of quote() contains no such delimiter, '
 	'and the three structured pieces are cut back exactly: userinfo (user[:password], colons in the user name escaped), host[:port] (decimal port read back by int()), and the path (segment-wise quoting, arbitrary UTF-8 text). The outer cuts of parse (fragment, query, scheme, authority, path) find exactly the pieces compose assembled whenever each piece is free of the delimiters that end it (uri_cuts; compose_assemble ties the assembly to compose) - the clause that no component leaks into its neighbour. What remains correspondence/oracle-level is the last step: filling the record (class by scheme, port setter defaults). '
+	'THE WHOLE URI is one theorem (parse_compose, Props/C10Whole.lean): for an absolute URI with a registered-name host, compose writes a text whose parse is the URI again - class, scheme, user name, password, host, port, path, query, fragment - and composing that again gives the same octets (compose_parse_compose); the hypotheses (UriGood: every component escapable and valid UTF-8, the port the default of the class or in 1..65535, the query a fixed point of the re-encoding; SetsGood: the safe sets keep the delimiters out, proved for the sets of the source) are discharged for a concrete URI with every component by kernel evaluation (c10_whole_witness). '
 	'IPv6 literals and internationalised names go through socket/idna and are covered by the oracle on the real code only.')
 LEVEL_NOTE = 'Trusted: Lean kernel; UTF-8 codec; extract.py/correspondence. inet_pton/ntop and the idna codec are parameters the model does not contain.'
